@@ -1563,16 +1563,17 @@ theorem postProcess_shape {sol : Unscale.Solution α} {eq : Info.Equil α} {pm :
       Unscale.copyFrom_size _ _ _ hs⟩
 
 /-- **the frame of `solve()`**: starting from consistently sized cone objects, `solve()` keeps the
-shape of the whole solver state, the sizing of the cone objects, and the lengths of the solution
+shape of the whole solver state (up to the norm caches of the data, which it fills), the sizing of the cone objects, and the lengths of the solution
 vectors -/
 theorem solve_frame {S : Solver α} {st : Settings α} {r : SolveResult α} (h : S.solve st = .ok r)
     (hok : ConesOk S.st.cones) :
-    SameShape S.st r.S.st ∧ ConesOk r.S.st.cones
+    SameShape S.st { r.S.st with data := S.st.data } ∧ ConesOk r.S.st.cones
       ∧ (r.S.solution.x.size = S.solution.x.size ∧ r.S.solution.z.size = S.solution.z.size
           ∧ r.S.solution.s.size = S.solution.s.size) := by
   unfold Solver.solve at h
   obtain ⟨L, hL, h⟩ := bind_ok_inv h
   obtain ⟨p, hp, h⟩ := bind_ok_inv h
+  obtain ⟨dN, hdN, h⟩ := bind_ok_inv h
   cases h
   unfold finish at hp
   obtain ⟨u, hu, hp⟩ := bind_ok_inv hp
@@ -1599,7 +1600,8 @@ theorem solve_frame {S : Solver α} {st : Settings α} {r : SolveResult α} (h :
       SameShape.build rfl pv ⟨rfl, rfl, rfl, rfl, rfl⟩ (KShape.rfl' _) (ConesShape.rfl' _)
         (VarsShape.rfl' _) (VarsShape.rfl' _) (VarsShape.rfl' _)
     refine ⟨?_, ?_, px, pz, ps⟩
-    · exact ((((SameShape.setInfo S.st _).trans d1).trans r1).trans q1).trans (f1.trans hfin)
+    · exact { ((((SameShape.setInfo S.st _).trans d1).trans r1).trans q1).trans (f1.trans hfin) with
+        data := rfl }
     · show ConesOk (finishInfo st L).cones
       rw [f2]; exact q2
 
@@ -1622,8 +1624,9 @@ theorem SameShape.wellSized {S S' : SolverSt α} (h : SameShape S S') (hw : Well
   exact ⟨by rw [← h.stepLhs.s, ← e]; exact hw.stepLhs, by rw [← h.stepRhs.s, ← e]; exact hw.stepRhs,
     by rw [← h.workConic, ← e]; exact hw.workConic⟩
 
-/-- `solve()` keeps the shape of the solver state: same data, every work vector keeps its length,
-every cone object keeps its shape.
+/-- `solve()` keeps the shape of the solver state: same data UP TO THE TWO NORM CACHES (which `solve()`
+fills: `solve_data`; the statement is about the returned state with the data at entry put back),
+every work vector keeps its length, every cone object keeps its shape.
 
 The hypothesis `ConesOk` (second-order cone objects sized consistently with their `dim`) cannot be
 dropped: `update_scaling` rewrites `w`, `u`, `v` of a second-order cone with vectors of length `dim`
@@ -1632,7 +1635,7 @@ whatever their previous length was, so
 is false for a state whose cone objects are not sized consistently.  It holds of every state built by
 `SolverSt.new` (`new_conesOk`) and is kept by `solve()` (`solve_conesOk`). -/
 theorem solve_sameShape {S : Solver α} {st : Settings α} {r : SolveResult α} (h : S.solve st = .ok r)
-    (hc : ConesOk S.st.cones) : SameShape S.st r.S.st := (solve_frame h hc).1
+    (hc : ConesOk S.st.cones) : SameShape S.st { r.S.st with data := S.st.data } := (solve_frame h hc).1
 
 /-- `solve()` keeps the cone objects sized consistently -/
 theorem solve_conesOk {S : Solver α} {st : Settings α} {r : SolveResult α} (h : S.solve st = .ok r)
@@ -1641,7 +1644,8 @@ theorem solve_conesOk {S : Solver α} {st : Settings α} {r : SolveResult α} (h
 /-- `solve()` keeps the three vectors that are cut along `rng_cones` within the cones' dimension -/
 theorem solve_wellSized {S : Solver α} {st : Settings α} {r : SolveResult α} (h : S.solve st = .ok r)
     (hc : ConesOk S.st.cones) (hw : WellSized S.st) : WellSized r.S.st :=
-  (solve_sameShape h hc).wellSized hw
+  let w := (solve_sameShape h hc).wellSized hw
+  ⟨w.stepLhs, w.stepRhs, w.workConic⟩
 
 /-- `solve()` keeps the lengths of the three solution vectors (no hypothesis needed) -/
 theorem solve_solution_shape {S : Solver α} {st : Settings α} {r : SolveResult α} (h : S.solve st = .ok r) :
@@ -1650,6 +1654,7 @@ theorem solve_solution_shape {S : Solver α} {st : Settings α} {r : SolveResult
   unfold Solver.solve at h
   obtain ⟨L, hL, h⟩ := bind_ok_inv h
   obtain ⟨p, hp, h⟩ := bind_ok_inv h
+  obtain ⟨dN, hdN, h⟩ := bind_ok_inv h
   cases h
   unfold finish at hp
   obtain ⟨u, hu, hp⟩ := bind_ok_inv hp
